@@ -2838,44 +2838,38 @@ pub mod verif {
         (k, s.start(), s.end())
     }
 
+    /// Run one scanner on a fresh parser. The parser (an empty AST full of hash maps) is leaked
+    /// rather than dropped: its drop glue is irrelevant to the scanners and dominates the cost of
+    /// symbolic execution.
+    fn with_parser<T>(src: &str, f: impl FnOnce(&mut YaccParser) -> Result<T, YaccGrammarError>) -> R<T> {
+        let mut p = YaccParser::new(YaccKind::Grmtools, src);
+        let r = f(&mut p).map_err(cvt);
+        std::mem::forget(p);
+        r
+    }
+
     pub fn parse_ws(src: &str, i: usize, inc_newlines: bool) -> R<usize> {
-        YaccParser::new(YaccKind::Grmtools, src)
-            .parse_ws(i, inc_newlines)
-            .map_err(cvt)
+        with_parser(src, |p| p.parse_ws(i, inc_newlines))
     }
 
     pub fn parse_action(src: &str, i: usize) -> R<usize> {
-        YaccParser::new(YaccKind::Grmtools, src)
-            .parse_action(i)
-            .map(|(j, _)| j)
-            .map_err(cvt)
+        with_parser(src, |p| p.parse_action(i).map(|(j, _)| j))
     }
 
     pub fn parse_to_eol(src: &str, i: usize) -> R<usize> {
-        YaccParser::new(YaccKind::Grmtools, src)
-            .parse_to_eol(i)
-            .map(|(j, _)| j)
-            .map_err(cvt)
+        with_parser(src, |p| p.parse_to_eol(i).map(|(j, _)| j))
     }
 
     pub fn parse_to_single_colon(src: &str, i: usize) -> R<usize> {
-        YaccParser::new(YaccKind::Grmtools, src)
-            .parse_to_single_colon(i)
-            .map(|(j, _)| j)
-            .map_err(cvt)
+        with_parser(src, |p| p.parse_to_single_colon(i).map(|(j, _)| j))
     }
 
     pub fn parse_int_usize(src: &str, i: usize) -> R<(usize, usize)> {
-        YaccParser::new(YaccKind::Grmtools, src)
-            .parse_int::<usize>(i)
-            .map_err(cvt)
+        with_parser(src, |p| p.parse_int::<usize>(i))
     }
 
     /// Returns the new offset and the length of the unescaped string.
     pub fn parse_string(src: &str, i: usize) -> R<(usize, usize)> {
-        YaccParser::new(YaccKind::Grmtools, src)
-            .parse_string(i)
-            .map(|(j, s)| (j, s.len()))
-            .map_err(cvt)
+        with_parser(src, |p| p.parse_string(i).map(|(j, s)| (j, s.len())))
     }
 }
